@@ -28,6 +28,8 @@ from .director import (
     make_stream_exc,
 )
 
+WRAPPED_OPS = {'PutObject', 'GetObject', 'HeadObject', 'DeleteObject', 'CopyObject', 'CreateMultipartUpload',
+               'UploadPart', 'UploadPartCopy', 'CompleteMultipartUpload', 'AbortMultipartUpload'}
 _session = None
 _session_lock = threading.Lock()
 
@@ -112,6 +114,9 @@ class RawBody:
         self.callkey = callkey
         self.label = label
         self.call_id = call_id
+        if fault is not None and fault['kind'] == 'incomplete' and fault.get('bytes', 0) >= len(data):
+            fault['done'] = True  # delivering everything and then EOF is not a fault
+            fault = None
         self.fault = fault
         self.read_caps = read_caps or []
         self.nreads = 0
@@ -219,6 +224,30 @@ class FakeS3:
         ev.register_first('before-call.s3.*', self._on_before_call)
         ev.register('before-send.s3.*', self._on_before_send)
         ev.register_first('needs-retry.s3.*', self._on_needs_retry)
+        # client boundary: log the return (or raise) of every API call
+        for pyname, opname in client.meta.method_to_api_mapping.items():
+            if opname in WRAPPED_OPS:
+                setattr(client, pyname, self._wrap_api(getattr(client, pyname), opname))
+
+    def _wrap_api(self, fn, opname):
+        def api_call(*a, **kw):
+            self.tls.call = None
+            try:
+                r = fn(*a, **kw)
+            except BaseException as e:
+                rec = getattr(self.tls, 'call', None)
+                if rec is not None:
+                    self.log.add('api.ret', op=opname, label=rec['label'], call_id=rec['call_id'], key=rec['key'],
+                                 error=repr(e)[:200], upload_id=rec['params'].get('UploadId'))
+                raise
+            rec = getattr(self.tls, 'call', None)
+            if rec is not None:
+                self.log.add('api.ret', op=opname, label=rec['label'], call_id=rec['call_id'], key=rec['key'], error=None,
+                             upload_id=rec['params'].get('UploadId'))
+            return r
+
+        api_call.__name__ = getattr(fn, '__name__', opname)
+        return api_call
 
     def label_for(self, bucket, key):
         return self.labels.get((bucket, key), key)
@@ -305,7 +334,7 @@ class FakeS3:
                          upload_id=rec['params'].get('UploadId'))
             return self._error_response(request, e)
         except BaseException as e:
-            if not hasattr(e, 'tag'):
+            if not hasattr(e, 'tag') and not getattr(e, '_vf_from_library', False):
                 import traceback
                 self.harness_errors.append(traceback.format_exc()[-1200:])
             self.log.add('s3.end', op=op, label=label, call_id=rec['call_id'], key=akey, status=None, error=repr(e),
@@ -360,7 +389,14 @@ class FakeS3:
                     n = limit - got
                     if n <= 0:
                         break
-                chunk = body.read(n)
+                try:
+                    chunk = body.read(n)
+                except BaseException as e:  # raised by library / user code under the body, not by the harness
+                    try:
+                        e._vf_from_library = True
+                    except Exception:
+                        pass
+                    raise
                 if not chunk:
                     break
                 parts.append(chunk)
@@ -522,7 +558,9 @@ class FakeS3:
                     if part is None or part['etag'] != x.get('ETag'):
                         raise S3Error(400, 'InvalidPart', f'part {x.get("PartNumber")}')
                     for name, val in part['checksums'].items():
-                        if up.get('ctype') == 'FULL_OBJECT':
+                        if up.get('ctype') == 'FULL_OBJECT' or not up.get('algo'):
+                            continue
+                        if name != 'Checksum' + up['algo'].upper():
                             continue
                         if x.get(name) != val:
                             raise S3Error(400, 'InvalidPart', f'part {x.get("PartNumber")} checksum {name}')
